@@ -11,20 +11,28 @@ import json, os, subprocess, sys, time
 
 ROOT = os.path.dirname(os.path.dirname(os.path.abspath(__file__)))
 seed = sys.argv[1] if len(sys.argv) > 1 else "1"
-rows = []
-for name in sorted(os.listdir(os.path.join(ROOT, "seeded"))):
+from concurrent.futures import ThreadPoolExecutor
+
+jobs = int(os.environ.get("SEEDED_JOBS", "3"))
+
+
+def one(name):
     d = os.path.join(ROOT, "seeded", name)
     patch = os.path.join(d, "patch.diff")
     if not os.path.isfile(patch):
-        continue
+        return None
     prop = name.split("-")[0]
     t = time.time()
     r = subprocess.run([os.path.join(ROOT, "tools", "sensitivity.py"), prop, patch], env=dict(os.environ, VERIF_SEED=seed), capture_output=True, text=True)
     line = (r.stdout.strip().splitlines() or ["DOES-NOT-APPLY"])[-1]
     verdict = "caught" if " caught " in line else "MISSED" if " MISSED " in line else "does not apply to HEAD" if line == "DOES-NOT-APPLY" else line[:40]
     bucket = line.split("bucket=")[1].split(" count=")[0] if "bucket=" in line else ""
-    rows.append((name, prop, verdict, round(time.time() - t), bucket))
     print(name, verdict, bucket, flush=True)
+    return (name, prop, verdict, round(time.time() - t), bucket)
+
+
+with ThreadPoolExecutor(jobs) as ex:
+    rows = [r for r in ex.map(one, sorted(os.listdir(os.path.join(ROOT, "seeded")))) if r]
 head = subprocess.run(["git", "-C", "/repo", "log", "--format=%h", "-1"], capture_output=True, text=True).stdout.strip()
 with open(os.path.join(ROOT, "seeded", "STATUS.md"), "w") as f:
     f.write(f"# Seeded changes against `./check <PROP> quick` (VERIF_SEED={seed}, /repo HEAD {head})\n\n| seed | property | verdict | s | first bucket |\n|---|---|---|---|---|\n")
